@@ -191,7 +191,9 @@ func cmdCheck(args []string) {
 	findingsPath := fs.String("findings", "/verif/known_findings.txt", "known findings")
 	outDir := fs.String("out", "/verif", "where evidence/ and out/ live")
 	lemmaDir := fs.String("lemmas", "/verif/spec/lemmas", "lemma files")
+	noAdequacy := fs.Bool("noadequacy", false, "thorough tier: skip the adequacy stage (used by the stage itself)")
 	fs.Parse(args)
+	repoDir = *dir
 	if fs.NArg() < 1 {
 		fmt.Println("usage: govc check [flags] <property id>")
 		os.Exit(2)
@@ -372,6 +374,29 @@ func cmdCheck(args []string) {
 			violations = append(violations, &Obligation{Name: name, Kind: "lemma", Status: st, Pos: "spec/lemmas/" + lf, Note: "lemma not proved"})
 		}
 	}
+	// thorough tier: independent re-solve of every discharged obligation, adequacy on scratch copies
+	var cross *crossStats
+	var adeq *adequacy
+	if *tier == "thorough" {
+		var dis []*Obligation
+		for _, o := range res.obls {
+			if o.Kind != "canary" && o.Kind != "cover" && o.Status == "unsat" {
+				dis = append(dis, o)
+			}
+		}
+		cross = crossCheck(res, dis, 20000)
+		for _, d := range cross.Disagree {
+			fmt.Println("SOLVER-DISAGREEMENT:", d)
+			broken = true
+		}
+		if !*noAdequacy && len(violations) == 0 {
+			self, _ := os.Executable()
+			adeq = runAdequacy(self, *dir, id)
+			for _, m := range adeq.Missed {
+				fmt.Println("ADEQUACY:", m)
+			}
+		}
+	}
 	// report violations
 	replayDir := filepath.Join(*outDir, "out", "replay", id)
 	os.MkdirAll(replayDir, 0o755)
@@ -429,6 +454,12 @@ func cmdCheck(args []string) {
 		"cover_reachable":          fmt.Sprintf("%d/%d", coverOK, coverTotal),
 		"lemmas":                   fmt.Sprintf("%d/%d", lemmaOK, lemmaTotal),
 		"explanation":              "every obligation is a verification condition generated from go/ssa of /repo's working tree for the listed functions; discharged == obligations means every one was answered unsat",
+	}
+	if cross != nil {
+		ev.Coverage["thorough_cross_check"] = cross
+	}
+	if adeq != nil {
+		ev.Coverage["thorough_adequacy"] = adeq
 	}
 	ev.Assumptions = append(append([]string{}, globalTrusted...), pc.Assumptions...)
 	if broken {
